@@ -56,6 +56,13 @@ func runC03(o opts) error {
 		for i := 0; i < nk/4; i++ {
 			scns = append(scns, c03.EscSosPm(rng))
 		}
+		scns = append(scns, c03.TypeAheadEach()...)
+		for i := 0; i < 2*nk; i++ {
+			scns = append(scns, c03.TypeAhead(rng))
+		}
+		for i := 0; i < nk; i++ {
+			scns = append(scns, c03.SizeReports(rng))
+		}
 	}
 	sink, err := trace.NewSink(o.out, o.shards)
 	if err != nil {
@@ -76,8 +83,15 @@ func runC03(o opts) error {
 			r.Answers = []c03.Answer{}
 		}
 		reports := []map[string]any{}
+		all := [][]c03.Report{}
+		for _, a := range sc.Ahead { // input during start-up: the first events of the stream
+			all = append(all, a.Reports)
+		}
 		for _, st := range sc.Steps {
-			for _, rp := range st.Reports {
+			all = append(all, st.Reports)
+		}
+		for _, rps := range all {
+			for _, rp := range rps {
 				k := rp.K
 				if k == "esckey" {
 					k = "key"
